@@ -35,8 +35,8 @@ private theorem view_base (h : Heap) (s : RSpan) :
 the spare capacity of a caller's slice); the only write to an existing array is the caller's own `wr`, into an array
 one of its buffers points to -/
 theorem sdk_only_allocates (w : World) (hi : Inv w) (op : AOp) :
-    (∃ xs, (step applyEvent lim w op).heap = w.heap ++ xs) ∨
-    (∃ b i kv, op = .wr b i kv ∧ ∃ sl ∈ w.bufs, ∃ v, (step applyEvent lim w op).heap = w.heap.set sl.arr v) := by
+    (∃ xs, (step cur lim w op).heap = w.heap ++ xs) ∨
+    (∃ b i kv, op = .wr b i kv ∧ ∃ sl ∈ w.bufs, ∃ v, (step cur lim w op).heap = w.heap.set sl.arr v) := by
   cases op with
   | mk kvs spare => exact Or.inl ⟨_, rfl⟩
   | wr b i kv =>
@@ -47,10 +47,12 @@ theorem sdk_only_allocates (w : World) (hi : Inv w) (op : AOp) :
       split
       · exact Or.inr ⟨b, i, kv, rfl, sl, List.mem_of_getElem? hs, _, rfl⟩
       · exact Or.inl ⟨[], by simp⟩
-  | start name attrBufs links => exact Or.inl ⟨[], by simp [step]⟩
+  | start name attrBufs links =>
+    obtain ⟨⟨xs, hxs⟩, _⟩ := startLinks_ok lim w hi links (w.heap, { base := C04.init name }) [] (by simp) ⟨by simp, by simp⟩
+    exact Or.inl ⟨xs, by simpa [step] using hxs⟩
   | setAttrs i b => refine Or.inl ⟨[], ?_⟩; simp only [step]; split <;> simp [setSpan]
   | addEvent i name bufs =>
-    simp only [step]
+    simp only [step, cur_ae]
     split
     · exact Or.inl ⟨[], by simp⟩
     · rename_i s hs
@@ -63,7 +65,7 @@ theorem sdk_only_allocates (w : World) (hi : Inv w) (op : AOp) :
         obtain ⟨⟨xs, hxs⟩, _⟩ := addEvent_ok lim w.heap w.bufs s name _ ho hi.bufs (hi.spans s (List.mem_of_getElem? hs))
         exact Or.inl ⟨xs, by simpa [setSpan] using hxs⟩
   | recordError i err bufs =>
-    simp only [step]
+    simp only [step, cur_ae]
     split
     · exact Or.inl ⟨[], by simp⟩
     · exact Or.inl ⟨[], by simp⟩
@@ -90,7 +92,13 @@ theorem sdk_only_allocates (w : World) (hi : Inv w) (op : AOp) :
         simp only [setSpan]
         rw [hxs, hys]
         simp [h1, List.append_assoc]
-  | addLink i sc b => refine Or.inl ⟨[], ?_⟩; simp only [step]; split <;> simp [setSpan]
+  | addLink i sc b =>
+    simp only [step, cur_lk]
+    split
+    · exact Or.inl ⟨[], by simp⟩
+    · rename_i s hs
+      obtain ⟨⟨xs, hxs⟩, _⟩ := addLink_ok lim w.heap w.bufs s sc (optBuf w b) hi.bufs (hi.spans s (List.mem_of_getElem? hs))
+      exact Or.inl ⟨xs, by simpa [setSpan] using hxs⟩
   | plain i op =>
     refine Or.inl ⟨[], ?_⟩; simp only [step]; split
     · simp
@@ -100,8 +108,17 @@ theorem sdk_only_allocates (w : World) (hi : Inv w) (op : AOp) :
     · simp
     · split <;> simp [setSpan]
 
+private theorem owned_read_stable (w : World) (hi : Inv w) (op : AOp) (sl : Slice) (hk : evOK w.heap w.bufs sl) :
+    read (step cur lim w op).heap sl = read w.heap sl := by
+  rcases sdk_only_allocates (lim := lim) w hi op with ⟨xs, hx⟩ | ⟨_, _, _, _, b, hb, v, hx⟩
+  · rw [hx]; exact read_append _ _ _ (evOK_readable _ _ _ hk)
+  · rw [hx]
+    rcases hk with h0 | ⟨_, h2⟩
+    · exact read_set_ne _ _ _ _ (Or.inl h0)
+    · exact read_set_ne _ _ _ _ (Or.inr (Ne.symm (h2 b hb)))
+
 private theorem events_read_stable (w : World) (hi : Inv w) (op : AOp) (s : RSpan) (hk : SpanOK w.heap w.bufs s) :
-    ∀ e ∈ s.events.queue, read (step applyEvent lim w op).heap e.attrs = read w.heap e.attrs := by
+    ∀ e ∈ s.events.queue, read (step cur lim w op).heap e.attrs = read w.heap e.attrs := by
   intro e he
   rcases sdk_only_allocates (lim := lim) w hi op with ⟨xs, hx⟩ | ⟨_, _, _, _, sl, hsl, v, hx⟩
   · rw [hx]
@@ -114,7 +131,7 @@ private theorem events_read_stable (w : World) (hi : Inv w) (op : AOp) (s : RSpa
     · exact read_set_ne _ _ _ _ (Or.inr (Ne.symm (h2 sl hsl)))
 
 /-- the OnEnd log only grows -/
-theorem exported_log_grows (w : World) (op : AOp) (ae : ApplyEvent) : w.exported <+: (step ae lim w op).exported := by
+theorem exported_log_grows (w : World) (op : AOp) (im : Impl) : w.exported <+: (step im lim w op).exported := by
   cases op <;> simp only [step]
   case wr => split; exact List.prefix_refl _; split <;> exact List.prefix_refl _
   case mk => exact List.prefix_refl _
@@ -133,43 +150,39 @@ theorem exported_log_grows (w : World) (op : AOp) (ae : ApplyEvent) : w.exported
 In every reachable world, for every snapshot `e` exported so far and every next operation `op` — an API call on this or
 another span whose attribute slices share memory (spare capacity included) with earlier calls, a Start, an End, or the
 caller overwriting any cell of any of its slices — what a reader of `e` sees is unchanged in name, status, attributes,
-dropped counts, and in EVERY EVENT (names, attribute values, drop counts): `applyEvent` copied the argument values at the
-call. The links are unchanged too unless `op` is a caller write (AddLink retains the caller's slice: see
-`link_attributes_alias_caller_witness`). The log itself only grows. -/
+dropped counts, in EVERY EVENT and in EVERY LINK (names / span contexts, attribute values, drop counts): `applyEvent` and
+(since fix 48fa451, finding F44) AddLink's `slices.Clone` copied the argument values at the call. So the whole snapshot is
+unchanged (last-but-one conjunct), without exception. The log itself only grows. -/
 theorem exported_snapshot_stable (w : World) (hr : Reachable lim w) (op : AOp) (e : Nat × RSpan) (he : e ∈ w.exported) :
-    let h' := (step applyEvent lim w op).heap
+    let h' := (step cur lim w op).heap
     (snapView h' e.2).events = (snapView w.heap e.2).events ∧
     (snapView h' e.2).droppedEvents = (snapView w.heap e.2).droppedEvents ∧
     (snapView h' e.2).name = (snapView w.heap e.2).name ∧
     (snapView h' e.2).status = (snapView w.heap e.2).status ∧
     (snapView h' e.2).attrs = (snapView w.heap e.2).attrs ∧
     (snapView h' e.2).droppedAttrs = (snapView w.heap e.2).droppedAttrs ∧
-    ((∀ b i kv, op ≠ .wr b i kv) → snapView h' e.2 = snapView w.heap e.2) ∧
-    w.exported <+: (step applyEvent lim w op).exported := by
+    (snapView h' e.2).links = (snapView w.heap e.2).links ∧
+    snapView h' e.2 = snapView w.heap e.2 ∧
+    w.exported <+: (step cur lim w op).exported := by
   have hi := inv_reachable lim w hr
   have hk := hi.exported e he
-  have hev := view_events_congr w.heap (step applyEvent lim w op).heap e.2 (events_read_stable w hi op e.2 hk)
-  refine ⟨?_, ?_, ?_, ?_, ?_, ?_, ?_, exported_log_grows w op _⟩
+  have hev := view_events_congr w.heap (step cur lim w op).heap e.2 (events_read_stable w hi op e.2 hk)
+  have hl : (view (step cur lim w op).heap e.2).links = (view w.heap e.2).links :=
+    view_links_congr _ _ _ fun l hl => owned_read_stable w hi op _ (hk.ln l hl)
+  refine ⟨?_, ?_, ?_, ?_, ?_, ?_, ?_, ?_, exported_log_grows w op _⟩
   · simp only [snapView, C04.snapshot]; rw [hev]
   · simp only [snapView, C04.snapshot]; rw [hev]
   · simp [snapView, C04.snapshot, view]
   · simp [snapView, C04.snapshot, view]
   · simp [snapView, C04.snapshot, view]
   · simp [snapView, C04.snapshot, view]
-  · intro hnw
-    have hl : (view (step applyEvent lim w op).heap e.2).links = (view w.heap e.2).links := by
-      apply view_links_congr
-      intro l hl
-      rcases sdk_only_allocates (lim := lim) w hi op with ⟨xs, hx⟩ | ⟨b, i, kv, hop, _⟩
-      · rw [hx]; exact read_append _ _ _ (hk.ln l hl)
-      · exact absurd hop (hnw b i kv)
-    simp only [snapView, C04.snapshot]
+  · simp only [snapView, C04.snapshot]; rw [hl]
+  · simp only [snapView, C04.snapshot]
     rw [hev, hl]
     simp [view]
 
-
 /-- every script leads to a reachable world -/
-theorem run_reachable (w : World) (hr : Reachable lim w) (ops : List AOp) : Reachable lim (run applyEvent lim w ops) := by
+theorem run_reachable (w : World) (hr : Reachable lim w) (ops : List AOp) : Reachable lim (run cur lim w ops) := by
   induction ops generalizing w with
   | nil => exact hr
   | cons op rest ih => exact ih _ (Reachable.step op hr)
@@ -179,8 +192,8 @@ slices): the span a reader sees after the call is C04's sequential step applied 
 option slices resolved to the values they held AT THE CALL -/
 theorem call_copies_arguments (w : World) (hr : Reachable lim w) (i : Nat) (name : Bytes) (bufs : List Nat) (s : RSpan)
     (hs : w.spans[i]? = some s) :
-    ∃ s', (step applyEvent lim w (.addEvent i name bufs)).spans[i]? = some s' ∧
-      view (step applyEvent lim w (.addEvent i name bufs)).heap s' =
+    ∃ s', (step cur lim w (.addEvent i name bufs)).spans[i]? = some s' ∧
+      view (step cur lim w (.addEvent i name bufs)).heap s' =
         C04.step lim (view w.heap s) (.addEvent name (bufs.flatMap fun b => read w.heap (bufOf w b))) := by
   have hi := inv_reachable lim w hr
   have hk := hi.spans s (List.mem_of_getElem? hs)
@@ -188,7 +201,7 @@ theorem call_copies_arguments (w : World) (hr : Reachable lim w) (i : Nat) (name
     rcases Nat.lt_or_ge i w.spans.length with h | h
     · exact h
     · rw [List.getElem?_eq_none h] at hs; cases hs
-  simp only [step, hs]
+  simp only [step, hs, cur_ae]
   by_cases hend : s.base.ended = true
   · simp only [hend, if_true]
     refine ⟨s, hs, ?_⟩
@@ -216,7 +229,7 @@ theorem call_copies_arguments (w : World) (hr : Reachable lim w) (i : Nat) (name
     have hL : ∀ l ∈ s.links.queue, derefL (newEventConfig applyEvent w.heap (bufs.map (bufOf w))).1 l = derefL w.heap l := by
       intro l hl
       simp only [derefL]
-      rw [hxs, read_append _ _ _ (hk.ln l hl)]
+      rw [hxs, read_append _ _ _ (evOK_readable _ _ _ (hk.ln l hl))]
     simp only [setSpan, addEvent, view, C04.step]
     have hend' : s.base.ended = false := by simpa using hend
     simp only [hend', Bool.false_eq_true, if_false]
@@ -226,9 +239,9 @@ theorem call_copies_arguments (w : World) (hr : Reachable lim w) (i : Nat) (name
 
 
 /-- non-vacuity: two options naming the same caller slice, which has spare capacity -/
-example : (view (run applyEvent ⟨-1, -1, -1, -1, -1, -1⟩ {}
+example : (view (run cur ⟨-1, -1, -1, -1, -1, -1⟩ {}
       [.mk [⟨[0x61], .int 1⟩] 4, .start [0x6f] [] [], .addEvent 0 [0x65] [0, 0]]).heap
-    ((run applyEvent ⟨-1, -1, -1, -1, -1, -1⟩ {}
+    ((run cur ⟨-1, -1, -1, -1, -1, -1⟩ {}
       [.mk [⟨[0x61], .int 1⟩] 4, .start [0x6f] [] [], .addEvent 0 [0x65] [0, 0]]).spans[0]?.getD { base := C04.init [] })).events.queue
     = [⟨[0x65], [⟨[0x61], .int 1⟩, ⟨[0x61], .int 1⟩], 0⟩] := by decide
 
@@ -246,8 +259,8 @@ def sharedErrScript : List AOp :=
 
 /-- non-vacuity of `exported_snapshot_stable`: a reachable world with an exported snapshot whose event carries the
 caller's attribute and the first span's message, followed by a RecordError on ANOTHER span with the same slice -/
-example : ∃ e, e ∈ (run applyEvent limDemo {} (sharedErrScript.take 4)).exported ∧
-    (snapView (run applyEvent limDemo {} sharedErrScript).heap e.2).events =
+example : ∃ e, e ∈ (run cur limDemo {} (sharedErrScript.take 4)).exported ∧
+    (snapView (run cur limDemo {} sharedErrScript).heap e.2).events =
       [⟨excName, [kvDemo 0x63 1, ⟨excTypeKey, .str [0x45]⟩, ⟨excMsgKey, .str [0x31]⟩], 0⟩] := by
   refine ⟨_, List.mem_singleton.mpr rfl, ?_⟩
   decide
@@ -257,8 +270,8 @@ the config has none yet") the SAME script changes the already exported snapshot 
 exception.message becomes the second span's — although the caller never wrote to its slice: RecordError's own option was
 appended in place into the caller's spare capacity, twice. -/
 theorem aliased_fastpath_breaks_immutability :
-    let w1 := run applyEventAliased limDemo {} (sharedErrScript.take 4)
-    let w2 := run applyEventAliased limDemo {} sharedErrScript
+    let w1 := run aliasedEvents limDemo {} (sharedErrScript.take 4)
+    let w2 := run aliasedEvents limDemo {} sharedErrScript
     w1.exported = w2.exported ∧
     (w1.exported.map fun e => (snapView w1.heap e.2).events) =
       [[⟨excName, [kvDemo 0x63 1, ⟨excTypeKey, .str [0x45]⟩, ⟨excMsgKey, .str [0x31]⟩], 0⟩]] ∧
@@ -269,26 +282,40 @@ theorem aliased_fastpath_breaks_immutability :
 /-- the same fast path with a caller that reuses its buffer after AddEvent returned and the span ended -/
 theorem aliased_fastpath_buffer_reuse_witness :
     let ops : List AOp := [.mk [kvDemo 0x61 1] 0, .start [0x6f] [] [], .addEvent 0 [0x72] [0], .end_ 0]
-    let w1 := run applyEventAliased limDemo {} ops
-    let w2 := step applyEventAliased limDemo w1 (.wr 0 0 (kvDemo 0x61 2))
+    let w1 := run aliasedEvents limDemo {} ops
+    let w2 := step aliasedEvents limDemo w1 (.wr 0 0 (kvDemo 0x61 2))
     (w1.exported.map fun e => (snapView w1.heap e.2).events) = [[⟨[0x72], [kvDemo 0x61 1], 0⟩]] ∧
     (w2.exported.map fun e => (snapView w2.heap e.2).events) = [[⟨[0x72], [kvDemo 0x61 2], 0⟩]] ∧
     -- the code as it is: unchanged
-    (let v1 := run applyEvent limDemo {} ops
-     let v2 := step applyEvent limDemo v1 (.wr 0 0 (kvDemo 0x61 2))
+    (let v1 := run cur limDemo {} ops
+     let v2 := step cur limDemo v1 (.wr 0 0 (kvDemo 0x61 2))
      (v2.exported.map fun e => snapView v2.heap e.2) = (v1.exported.map fun e => snapView v1.heap e.2)) := by
   decide
 
-/-- **links are NOT copied** (the code as it is): AddLink stores `link.Attributes`, the caller's slice; a caller that
-overwrites its slice after AddLink returned and the span ended changes the exported snapshot's link attributes. This is
-why `exported_snapshot_stable` excludes caller writes for the link part (candidate finding, `linkWriteAfterUse`). -/
-theorem link_attributes_alias_caller_witness :
+/-- **the reverted fix 48fa451 (finding F44) is refuted**: with `keepLink` (AddLink stores `link.Attributes`, the
+caller's slice) a caller that overwrites its slice after AddLink returned and the span ended changes the exported
+snapshot's link attributes; with the code as it is (`slices.Clone`) the snapshot is unchanged. -/
+theorem reverted_link_fix_breaks_immutability :
     let ops : List AOp := [.mk [kvDemo 0x61 1] 0, .start [0x6f] [] [], .addLink 0 ⟨1, 1, 0⟩ (some 0), .end_ 0]
-    let w1 := run applyEvent limDemo {} ops
-    let w2 := step applyEvent limDemo w1 (.wr 0 0 (kvDemo 0x61 2))
-    linkWriteAfterUse (ops ++ [.wr 0 0 (kvDemo 0x61 2)]) = true ∧
+    let w1 := run sharedLinks limDemo {} ops
+    let w2 := step sharedLinks limDemo w1 (.wr 0 0 (kvDemo 0x61 2))
     (w1.exported.map fun e => (snapView w1.heap e.2).links) = [[⟨⟨1, 1, 0⟩, [kvDemo 0x61 1], 0⟩]] ∧
-    (w2.exported.map fun e => (snapView w2.heap e.2).links) = [[⟨⟨1, 1, 0⟩, [kvDemo 0x61 2], 0⟩]] := by
+    (w2.exported.map fun e => (snapView w2.heap e.2).links) = [[⟨⟨1, 1, 0⟩, [kvDemo 0x61 2], 0⟩]] ∧
+    (let v1 := run cur limDemo {} ops
+     let v2 := step cur limDemo v1 (.wr 0 0 (kvDemo 0x61 2))
+     (v2.exported.map fun e => snapView v2.heap e.2) = (v1.exported.map fun e => snapView v1.heap e.2) ∧
+     (v1.exported.map fun e => (snapView v1.heap e.2).links) = [[⟨⟨1, 1, 0⟩, [kvDemo 0x61 1], 0⟩]]) := by
+  decide
+
+/-- the same through Start(WithLinks(…)) -/
+theorem reverted_link_fix_withlinks_witness :
+    let ops : List AOp := [.mk [kvDemo 0x61 1] 2, .start [0x6f] [] [(⟨1, 1, 0⟩, some 0)], .end_ 0]
+    let w1 := run sharedLinks limDemo {} ops
+    let w2 := step sharedLinks limDemo w1 (.wr 0 0 (kvDemo 0x61 2))
+    (w2.exported.map fun e => (snapView w2.heap e.2).links) ≠ (w1.exported.map fun e => (snapView w1.heap e.2).links) ∧
+    (let v1 := run cur limDemo {} ops
+     let v2 := step cur limDemo v1 (.wr 0 0 (kvDemo 0x61 2))
+     (v2.exported.map fun e => snapView v2.heap e.2) = (v1.exported.map fun e => snapView v1.heap e.2)) := by
   decide
 
 end Otel.C10.Alias
